@@ -17,7 +17,7 @@ def cases(draw, tier):
     which = draw(st.integers(0, 3))
     if which == 0:
         c = draw(scope_programs(tier, fail=4, volatile=3, until=4, late_spawn=3, priv=1, finally_spawn=2,
-                                nocatch=1, uncaught_blocks=3))
+                                nocatch=1, uncaught_blocks=3, catch_priv=3))
     else:
         c = draw(whole_programs(tier, first_failures=side))
     c['side'] = side
